@@ -2,7 +2,7 @@
 
 TRUST = ("Trusted: CPython semantics as encoded by the pyvc interpreter (ints mathematical, C-layer machine limits not "
          "modelled); the assumed contracts of bitarray/struct/slice arithmetic/hash in pyvc/extern.py & co. (conformance-"
-         "tested against the installed libraries at every run, not proved); z3 5.1.0; the pyvc engine itself (every proved "
+         "tested against the installed libraries at every run, not proved); z3 5.1.0 and cvc5 1.0.3; the pyvc engine itself (every proved "
          "shape is cross-checked natively on sampled inputs). Termination is not verified. ")
 
 HOOKS = {
@@ -26,7 +26,7 @@ NOTES = ("All checks: ./vf check <id> --tier quick|thorough. exit 0 held / 1 VIO
 
 
 def _p(text, note='', technique='contract-based deductive verification: AST symbolic execution of the real functions against '
-       'sidecar contracts, VCs discharged by z3', category='proof'):
+       'sidecar contracts, VCs discharged by z3 (goals z3 leaves unknown go to cvc5; only its unsat is used)', category='proof'):
     return {'category': category, 'text': text, 'note': TRUST + note, 'technique': technique}
 
 
@@ -64,7 +64,8 @@ CLAIMS = {
               "is unreachable; Dtype lengths; source windows beyond the data are rejected. String/token routes are bounded."),
     'C16': _p("&, |, ^, ~, <<, >> and the in-place forms are proved per-bit against their boolean definition for all lengths, "
               "classes, store states and operand kinds incl. aliasing; errors as documented; operands (content and pos) "
-              "unchanged. The algebraic laws are consequences of the pointwise contracts."),
+              "unchanged. The algebraic laws are consequences of the pointwise contracts. Operand kinds outside the model (bitarrays and "
+              "frozenbitarrays of both bit-endiannesses, promoted on the fly) are served by a bounded native sweep, labelled as such."),
     'C17': _p("tobytes is proved to be the bits followed by zero padding for every store state; the read-back constructors are "
               "proved to recover exactly the selected window or raise CreationError. tofile's chunk loop and Array are served "
               "by the bounded stand-in / later obligations."),
